@@ -159,6 +159,17 @@ def ref_optimization_objective(model, mspecs):
     return total
 
 
+def make_instructions(at, progset, spec):
+    """Starting instructions of an optimization problem: the program book's spending at the start year, optionally with a trend."""
+    instr = at.ProgramInstructions(start_year=spec["start"], alloc=progset)
+    trend = spec.get("alloc_trend", 1.0)
+    if trend != 1.0:
+        for ts in instr.alloc.values():
+            v0 = ts.vals[0]
+            ts.insert(spec["start"] + 2, v0 * trend)
+    return instr
+
+
 def close(a, b, rel=1e-9):
     if a == b:
         return True
@@ -275,7 +286,8 @@ def gen_optimization(ch):
     n_adj = 2 + ch.choose("n_programs", max(1, min(3, len(progs) - 1)))
     chosen = ch.shuffle("programs", progs)[:n_adj]
     limit = ch.pick("limit_type", ["abs", "rel"])
-    adj_years = [start] if not ch.flip("two_years", 0.2) else [start, start + 2]
+    adj_years = [start] if not ch.flip("two_years", 0.3) else [start, start + 2]
+    alloc_trend = [1.0, 1.4, 0.6][ch.choose("alloc_trend", 3)] if len(adj_years) > 1 else 1.0  # baseline budget differs between the adjustment years
     adjustments = []
     for i, pn in enumerate(chosen):
         if limit == "abs":
@@ -323,6 +335,7 @@ def gen_optimization(ch):
         "project": name,
         "dt": [None, None, 0.5, 1.0][ch.choose("dt", 4)],
         "start": start,
+        "alloc_trend": alloc_trend,
         "adjustments": adjustments,
         "measurables": measurables,
         "constraint": constraint,
@@ -522,7 +535,7 @@ def execute(spec, fault, bump):
                     result = acal.calibrate(P, parset, adj, list(measurables), max_time=spec["max_time"], **kwargs)
 
             elif kind == "optimize":
-                instructions = at.ProgramInstructions(start_year=spec["start"], alloc=progset)
+                instructions = make_instructions(at, progset, spec)
                 adjustments = [at.SpendingAdjustment(a["prog"], a["t"], a["limit"], a["lower"], a["upper"]) for a in spec["adjustments"]]
                 pk = spec.get("package")
                 if pk:
@@ -811,7 +824,7 @@ def execute(spec, fault, bump):
         if math.isfinite(f0) and not math.isfinite(f_final):
             violate("hard_target_lost", "optimize", {"f_start": f0, "f_final": f_final})
         # bounds and total spend
-        base_instr = at.ProgramInstructions(start_year=spec["start"], alloc=P2.progsets[0])
+        base_instr = make_instructions(at, P2.progsets[0], spec)
         pk = spec.get("package")
         if pk:
             vals = np.array([new_instr.alloc[pn].get(pk["t"]) for pn in pk["progs"]], dtype=float)
